@@ -121,6 +121,20 @@ def make_assertion(rng, variant):
         claims["aud"] = "https://other.example/token"
     elif variant == "aud-list":
         claims["aud"] = [TOKEN_URL, "x"]
+    elif variant == "aud-containing":          # text that contains the token endpoint without being it
+        claims["aud"] = "https://rp.attacker.example/cb?for=" + TOKEN_URL
+    elif variant == "aud-longer":
+        claims["aud"] = TOKEN_URL + "/introspect"
+    elif variant == "aud-shorter":
+        claims["aud"] = TOKEN_URL[:-1]
+    elif variant == "aud-case":
+        claims["aud"] = TOKEN_URL.upper()
+    elif variant == "aud-list-containing":
+        claims["aud"] = [TOKEN_URL + "x", "x" + TOKEN_URL]
+    elif variant == "iss-containing":          # issuer and subject that contain / are contained in the client id
+        claims.update(iss="cj0", sub="cj")
+    elif variant == "sub-contained":
+        claims.update(iss="c", sub="c")
     elif variant == "expired":
         claims["exp"] = NOW - 61
     elif variant == "exp-leeway":
@@ -155,7 +169,8 @@ def make_assertion(rng, variant):
              "assertion_claims": json.loads(json.dumps(claims))})
 
 
-ASSERTION_VARIANTS = ["ok", "ec-ok", "ec-wrong-key", "iss-ne-sub", "aud-wrong", "aud-list", "expired", "exp-leeway",
+ASSERTION_VARIANTS = ["ok", "ec-ok", "ec-wrong-key", "iss-ne-sub", "aud-wrong", "aud-list", "aud-containing", "aud-longer", "aud-shorter", "aud-case",
+                      "aud-list-containing", "iss-containing", "sub-contained", "expired", "exp-leeway",
                       "no-jti", "replayed", "unknown-sub", "no-sub", "no-exp", "wrong-key", "sub-basic-client",
                       "exp-string", "malformed", "tampered", "wrong-type"]
 
